@@ -437,10 +437,21 @@ fn color_styles(
 
 fn split_lines(styled: &[(anstyle::Style, String)]) -> Vec<Vec<(anstyle::Style, &str)>> {
     let mut lines = Vec::new();
-    let mut current_line = Vec::new();
+    let mut current_line: Vec<(anstyle::Style, &str)> = Vec::new();
     for (style, mut next) in styled.iter().map(|(s, t)| (*s, t.as_str())) {
         while let Some((current, remaining)) = next.split_once('\n') {
-            let current = current.strip_suffix('\r').unwrap_or(current);
+            let current = match current.strip_suffix('\r') {
+                Some(current) => current,
+                None => {
+                    if current.is_empty() {
+                        // the carriage return may end the previous, differently styled, fragment
+                        if let Some((_, prev)) = current_line.last_mut() {
+                            *prev = prev.strip_suffix('\r').unwrap_or(*prev);
+                        }
+                    }
+                    current
+                }
+            };
             current_line.push((style, current));
             lines.push(current_line);
             current_line = Vec::new();
